@@ -279,13 +279,15 @@ def faults(spec, asg, toks, roles):
 
 
 def run_faults(item):
-    fi, spec, params, shard, nshards = item
+    """one format: every assignment x spelling x fault; mutated lines are de-duplicated per format (the same faulty line can
+    arise from different valid lines), so every (format, line) pair is parsed and counted once"""
+    fi, spec, params = item
     fmt = G.build_format(spec)
-    res = {"lines": 0, "base_lines": 0, "hist": {}, "kinds": {}, "viol": {}, "nontrivial": 0, "sample": None, "bare_none": 0}
+    res = {"lines": 0, "base_lines": 0, "hist": {}, "kinds": {}, "viol": {}, "nontrivial": 0, "sample": None, "bare_none": 0,
+           "duplicates": 0}
     asgs = G.assignments(spec, bare_none=True, **params)
+    done = set()
     for ai, asg in enumerate(asgs):
-        if ai % nshards != shard:
-            continue
         bare_none = any(ch and ch[0] == "bare" and o[5] is None for o, ch in zip(spec["opts"], asg["opts"]))
         seen = set()
         for toks, roles in G.spellings(spec, asg, omit_names=True, tails=True):
@@ -302,6 +304,11 @@ def run_faults(item):
             else:
                 cases.extend(faults(spec, asg, toks, roles))
             for kind, mt, pred in cases:
+                h = hash("\0".join(mt))
+                if h in done:
+                    res["duplicates"] += 1
+                    continue
+                done.add(h)
                 res["lines"] += 1
                 res["kinds"][kind] = res["kinds"].get(kind, 0) + 1
                 cls, vs = judge(fmt, spec, mt, pred, kind)
@@ -363,15 +370,18 @@ def main():
             continue
         seen.add(key)
         nff += 1
-        nasg = len(G.assignments(spec, bare_none=True, **params))
-        nsh = min(8, max(1, nasg // 8))
-        for sh in range(nsh):
-            items.append(("fault", (fi, spec, params, sh, nsh)))
+        items.append(("fault", (fi, spec, params)))
 
     def work(it):
         return run_soup(it[1]) if it[0] == "soup" else run_faults(it[1])
 
-    order = sorted(range(len(items)), key=lambda i: 0 if items[i][0] == "soup" else 1)
+    def cost(i):  # schedule the (probably) biggest fault formats first; results are merged per item, order has no influence
+        if items[i][0] == "soup":
+            return 0
+        sp = items[i][1][1]
+        return -(4 * len(sp["opts"]) + 2 * len(sp["args"]) + len(sp["names"]))
+
+    order = sorted(range(len(items)), key=cost)
     res_s = par.pmap(work, [items[i] for i in order])
     results = [None] * len(items)
     for i, r in zip(order, res_s):
@@ -383,7 +393,9 @@ def main():
     nontrivial = 0
     base_lines = 0
     bare_none = 0
+    dups = 0
     for it, r in zip(items, results):
+        dups += r.get("duplicates", 0)
         tot[it[0]] += r["lines"]
         nontrivial += r["nontrivial"]
         for k, v in r["hist"].items():
@@ -403,7 +415,7 @@ def main():
              tiny_alphabet=ALPHA6 if rep.tier == "thorough" else None, tiny_len=len_small + 1 if rep.tier == "thorough" else None,
              lines=tot["soup"], strict_outcomes=hist["soup"])
     rep.part("b:single-faults", formats=nff, valid_lines_mutated=base_lines, mutated_lines=tot["fault"], per_fault=kinds,
-             strict_outcomes=hist["fault"], bare_optional_without_default_lines=bare_none)
+             strict_outcomes=hist["fault"], bare_optional_without_default_lines=bare_none, duplicate_mutations_skipped=dups)
     rep.set("lines", tot["soup"] + tot["fault"])
     rep.set("evaluations", 2 * (tot["soup"] + tot["fault"]))
     rep.set("distinct_nontrivial", nontrivial)
@@ -411,7 +423,8 @@ def main():
     rep.set("rule", "evaluations = parses (each distinct (format, line) once strict, once lenient); distinct_nontrivial = distinct "
                     "(format, token line) pairs that strict mode REJECTS (one of the three documented errors or an escaped "
                     "exception), i.e. lines that drive an error path; the small-alphabet soup runs only the lengths the "
-                    "big-alphabet soup does not reach (its alphabet is a subset), fault lines are de-duplicated per assignment")
+                    "big-alphabet soup does not reach (its alphabet is a subset); mutated lines are de-duplicated per format (hash set), "
+                    "soup formats and fault formats use different option names, so no pair is counted twice")
     rep.assume("every parse uses a fresh DefaultArgsParser (parser reuse is C05)")
     rep.assume("a ValueError in lenient mode is allowed (a conversion failure is not one of the two parse errors)")
     rep.assume("VERIF_SEED rotates one extra token (%r) into the 24-token alphabet" % extra)
